@@ -40,14 +40,17 @@ def gen_cases(rng, tier):
                     d['mode'] = 'update'
         cases.append({'kind': 'history', 'keys': keys, 'pk': pk, 'dumps': dumps, 'flags': rng.chance(0.5),
                       'keys_always': rng.chance(0.5)})
-    for i in range(max(2, n // 20)):
-        rows = [{'k': j, 'arr': rng.pick([[1, 2], [], None]), 'obj': rng.pick([{'a': 1}, {}, None])} for j in range(3)]
-        cases.append({'kind': 'objects', 'rows': rows_enc(rows)})
+    for i in range(max(4, n // 8)):
+        # array/object columns: the engine gets converted copies; pairing of written and original rows across batches
+        rows = [{'k': rng.randint(0, 3), 'arr': rng.pick([[1, 2], [], None, ['x', None]]), 'obj': rng.pick([{'a': 1}, {}, None, {'b': [1]}])}
+                for j in range(rng.randint(1, 7))]
+        cases.append({'kind': 'objects', 'rows': rows_enc(rows), 'mode': rng.pick(['rewrite', 'update']),
+                      'batch': rng.pick([1, 2, 3, 1000]), 'flags': rng.chance(0.5)})
     return cases
 
 
 def witnesses():
-    return [{'kind': 'objects', 'rows': rows_enc([{'k': 1, 'arr': [1, 2], 'obj': {'a': 1}}]), 'witness_of': 'C20.array_object_rows_jsonized'}]
+    return [{'kind': 'objects', 'rows': rows_enc([{'k': 1, 'arr': [1, 2], 'obj': {'a': 1}}]), 'witness_of': 'regression: C20.array_object_rows_jsonized (fixed)'}]
 
 
 def select_all(engine, cols):
@@ -64,10 +67,19 @@ def run_impl(case):
     if case['kind'] == 'objects':
         rows = rows_dec(case['rows'])
         res = [{'name': 'r', 'fields': [{'name': 'k', 'type': 'integer'}, {'name': 'arr', 'type': 'array'}, {'name': 'obj', 'type': 'object'}], 'rows': rows}]
-        out = run_stream(res, [DF.dump_to_sql({'t': {'resource-name': 'r'}}, engine=engine)])
+        spec = {'resource-name': 'r', 'mode': case.get('mode', 'rewrite')}
+        if spec['mode'] == 'update':
+            spec['update_keys'] = ['k']
+        kw = {'batch_size': case.get('batch', 1000)}
+        if case.get('flags'):
+            kw['updated_column'] = '_upd'
+        out = run_stream(res, [DF.dump_to_sql({'t': spec}, engine=engine, **kw)])
         if 'error' in out:
             return {'error': out['exc']}
-        return {'down': rows_enc(out['rows'][0]), 'table': select_all(engine, ['k', 'arr', 'obj'])}
+        down = out['rows'][0]
+        return {'down': rows_enc([dict((k, r.get(k)) for k in ('k', 'arr', 'obj')) for r in down]),
+                'flags': [r.get('_upd') for r in down] if case.get('flags') else None,
+                'table': select_all(engine, ['k', 'arr', 'obj'])}
     cols = ['k', 'k2', 'v', 'n']
     fields = [{'name': 'k', 'type': 'integer'}, {'name': 'k2', 'type': 'string'}, {'name': 'v', 'type': 'string'}, {'name': 'n', 'type': 'integer'}]
     steps = []
@@ -100,7 +112,29 @@ def oracle(case, out):
         rows = rows_dec(case['rows'])
         down = rows_dec(out['down'])
         if down != rows:
-            return 'rows continue downstream changed: %r -> %r' % (rows[0], down[0])
+            return 'rows continue downstream changed: %r -> %r' % (rows, down)
+        table, flags = [], []
+        for r in rows:
+            hit = False
+            if case.get('mode') == 'update':
+                for x in table:
+                    if x['k'] == r['k']:
+                        x.update(r)
+                        hit = True
+            if not hit:
+                table.append(dict(r))
+            flags.append(hit)
+        got = []
+        for t in out['table'] or []:
+            try:
+                got.append({'k': t['k'], 'arr': None if t['arr'] is None else json.loads(t['arr']),
+                            'obj': None if t['obj'] is None else json.loads(t['obj'])})
+            except Exception:
+                return 'array/object column does not hold JSON text: %r' % (t,)
+        if sorted(map(repr, got)) != sorted(map(repr, table)):
+            return 'array/object table after a %s dump (batch=%s): %r, the mode prescribes %r' % (case.get('mode'), case.get('batch'), got, table)
+        if out.get('flags') is not None and [bool(f) for f in out['flags']] != flags:
+            return 'updated flags %r, truthful flags are %r' % (out['flags'], flags)
         return None
     table = []
     for d, st in zip(case['dumps'], out['steps']):
@@ -139,7 +173,7 @@ def finding(case, out, failure):
         rows = rows_dec(case['rows'])
         down = rows_dec(out['down'])
         if len(down) == len(rows) and all(d['k'] == r['k'] and all(d[c] == json.dumps(r[c]) for c in ('arr', 'obj')) for d, r in zip(down, rows)):
-            return 'C20.array_object_rows_jsonized'
+            return None      # was the known finding C20.array_object_rows_jsonized, repaired by fix c41c15e
     return None
 
 
